@@ -191,6 +191,11 @@ def b01 (b : Bool) : String := if b then "1" else "0"
 
 def diagsText (ds : List Diag) : List Char := ds.flatMap Cli.renderDiag
 
+def abnName : Abn → String
+  | .fuel => "fuel"
+  | .panic => "panic"
+  | .cyclic => "cyclic"
+
 /-! ## modes -/
 
 def doLex (src : List Char) : String :=
@@ -202,7 +207,7 @@ def doLex (src : List Char) : String :=
 def doParse (src : List Char) : String :=
   let fe := Cli.frontEnd platform.lm src
   match fe.abnormal with
-  | some a => s!"ABN:{a}"
+  | some a => s!"ABN:{abnName a}"
   | none =>
     let tree := match fe.prog with
       | some p => stmtsDump p
@@ -212,7 +217,7 @@ def doParse (src : List Char) : String :=
 def doRun (fuel : Nat) (src stdin : List Char) (repl : Bool) : String :=
   let r := Cli.run platform fuel src repl stdin
   match r.abnormal with
-  | some a => s!"ABN:{a}"
+  | some a => s!"ABN:{abnName a}"
   | none => s!"O:{hx r.out}\tE:{hx r.stderr}\tF:{b01 r.hadError}{b01 r.hadRuntimeError}\tN:{r.nativeCalls}\tI:{r.inputRest.length}"
 
 def bitsArg (s : String) : F64 :=
